@@ -95,6 +95,31 @@ func entryPoints() []entryPoint {
 				}
 				return true, fmt.Errorf("harness: reader still going after 1000 reads")
 			}},
+		// the header check switched off, inside an open message: control frames of any announced
+		// length reach the in-message branch; with no handler, and with one that reads nothing
+		{name: "Reader/nocheck-inside-open-message", prefix: refmodel.Frame{H: refmodel.Hdr{Op: 1}, Payload: []byte("a")}.Wire(),
+			run: func(src *env.Src, dst *env.Dst, max int64) (bool, error) {
+				rd := &wsutil.Reader{Source: src, SkipHeaderCheck: true, MaxFrameSize: max}
+				if _, err := rd.NextFrame(); err != nil {
+					return false, err
+				}
+				buf := make([]byte, 64)
+				for i := 0; i < 1000; i++ {
+					if _, err := rd.Read(buf); err != nil {
+						return true, err
+					}
+				}
+				return true, fmt.Errorf("harness: reader still going after 1000 reads")
+			}},
+		{name: "Reader/nocheck-lazy-handler-inside-open-message", prefix: refmodel.Frame{H: refmodel.Hdr{Op: 2}, Payload: []byte("a")}.Wire(),
+			run: func(src *env.Src, dst *env.Dst, max int64) (bool, error) {
+				rd := &wsutil.Reader{Source: src, SkipHeaderCheck: true, MaxFrameSize: max}
+				rd.OnIntermediate = func(ws.Header, io.Reader) error { return nil }
+				if _, err := rd.NextFrame(); err != nil {
+					return false, err
+				}
+				return true, rd.Discard()
+			}},
 		{name: "ReadData/client-inside-open-message", prefix: refmodel.Frame{H: refmodel.Hdr{Op: 2}, Payload: []byte("a")}.Wire(),
 			run: func(src *env.Src, dst *env.Dst, max int64) (bool, error) {
 				_, _, err := wsutil.ReadData(env.RW{Reader: src, Writer: dst}, ws.StateClientSide)
